@@ -7,8 +7,9 @@ CONSTANTS
   MaxLatch = 0
   FileSteps = TRUE
   QKinds = {}
-  Fix = {}
-  KKOps = {"U", "T"}
+  Fix = {"stale", "zero", "tmp"}
+  KKOps = {"U", "R", "T"}
 VIEW view
 INVARIANTS TypeOK FinishedOnlyAfter NoLostUpdate TagAtomic
+PROPERTIES TagReplacedByRenameOnly
 CHECK_DEADLOCK FALSE
